@@ -1166,7 +1166,19 @@ static void setup_worker(struct ctx *c, uint8_t f, uint8_t b3, uint8_t pa)
     upipe_mgr_release(work_mgr);
     c->transferred = true;         /* from now on the remote pipes must not be accessed from thread A */
     if (c->worker == NULL) { INTERNAL("worker alloc"); return; }
-    if (freeze) { uprobe_throw(c->worker->uprobe, NULL, UPROBE_THAW_UPUMP_MGR); upipe_attach_upump_mgr(c->worker); }
+    if (freeze) {
+        /* still inside the application's own FREEZE .. THAW section (applications build their remote pipelines and allocate
+         * the worker inside one, so that nothing destined to the other thread is given this thread's event loop): the
+         * worker's internal freeze / thaw must not have ended it -- freezes nest */
+        struct upump_mgr *m = NULL;
+        upipe_throw_need_upump_mgr(c->worker, &m);
+        if (m != NULL) {
+            FAIL("thread/upump-mgr", "the upump manager probe answered inside the application's freeze section (after the worker's own nested freeze / thaw): pipes built there for the other thread would run their pumps in the application thread");
+            upump_mgr_release(m);
+        }
+        uprobe_throw(c->worker->uprobe, NULL, UPROBE_THAW_UPUMP_MGR);
+        upipe_attach_upump_mgr(c->worker);
+    }
     if (late_attach && real_thread) bth_release(c);
     else if (late_attach) { c->forced = SB; upipe_xfer_mgr_attach(xfer_mgr, c->loop[SB]); upipe_mgr_release(xfer_mgr); c->forced = SA; }
     if (c->topo != T_WSINK) upipe_set_output(c->worker, c->tap);
